@@ -11,7 +11,7 @@
 Not decided: numeric consequences of the layout (non-overlap) beyond the per-type table; zero-count entries from empty user vectors.
 """
 import re
-from engine import op_place, const_int
+from engine import op_place, const_int, const_str
 from terms import TermBuilder, render
 from common import switch_info, arms_of, reach_from, fmt_key, call_leaves
 from c01 import agg_fields
@@ -144,6 +144,11 @@ def run(f, fixture, rep, cfg, tier):
                 for st in ap.stmts(bb):
                     if st["k"] == "assign" and st["rv"]["r"] == "bin" and st["rv"]["op"] == "Rem":
                         v = const_int(st["rv"]["b"])
+                        if v is None:
+                            # the modulus handed to a (spliced-in) padding helper as an argument
+                            lv_ = [lf for lf in ap.origins(st["rv"]["b"])]
+                            if len(lv_) == 1 and lv_[0]["kind"] == "const" and "bits" in lv_[0]["k"]:
+                                v = int(lv_[0]["k"]["bits"])
                         a = render(ta.term(st["rv"]["a"]))
                         if v is not None and "Vec::<T, A>::len(store)" in a:
                             mods.add(v)
@@ -152,7 +157,8 @@ def run(f, fixture, rep, cfg, tier):
             calls = [c for c in ap.calls() if c.bb in region]
             if name in ("Int16", "Int32", "Int64"):
                 cl = [c for cb in f.closures_of(ap) for c in cb.calls() if c.decl.endswith("to_be_bytes")]
-                rep.check(any(c.decl.endswith("::push") for c in calls) and bool(cl), "R3", "encode|%s" % name, "%s elements are appended big-endian" % name, "%s arm does not append to_be_bytes" % name, ap.span)
+                direct = any(re.search(r"(extend_from_slice|Extend::extend)$", c.decl) and len(c.args) > 1 and "::to_be_bytes(" in render(ta.term(c.args[1])) for c in calls)
+                rep.check((any(c.decl.endswith("::push") for c in calls) and bool(cl)) or direct, "R3", "encode|%s" % name, "%s elements are appended big-endian" % name, "%s arm does not append to_be_bytes" % name, ap.span)
             if name in ("StringTag", "StringArray", "I18NString"):
                 nul = [c for c in calls if c.decl.endswith("Vec::<T, A>::push") and const_int(c.args[1]) == 0]
                 ext = [c for c in calls if c.decl.endswith("extend_from_slice")]
@@ -201,9 +207,27 @@ def run(f, fixture, rep, cfg, tier):
     crt = f.one("header::Header::<T>::create_region_tag")
     tc = TermBuilder(crt)
     news = [c for c in crt.calls() if re.search(r"IndexEntry::<.*>::new$", c.decl)]
+    # an entry may also be written as a struct literal `IndexEntry { tag: tag.to_u32(), data, offset, num_items, .. }`
+    lit_cnt = []
+
+    class _Lit:
+        pass
+    for bb_ in sorted(crt.reachable()):
+        for st_ in crt.stmts(bb_):
+            if st_["k"] == "assign" and st_["rv"]["r"] == "agg" and st_["rv"].get("ak") == "adt" and st_["rv"].get("adt", "").endswith("header::IndexEntry"):
+                fl_ = dict(zip(st_["rv"]["fields"], st_["rv"]["ops"]))
+                if {"tag", "offset", "data"} <= set(fl_):
+                    x_ = _Lit()
+                    x_.bb, x_.args, x_.line, x_.lit = bb_, [fl_["tag"], fl_["offset"], fl_["data"]], st_.get("line"), True
+                    x_.loc = (lambda ln: (lambda: "%s:%s" % (crt.file, ln)))(st_.get("line"))
+                    news.append(x_)
+                    if const_int(fl_.get("num_items", {})) is not None:
+                        lit_cnt.append(const_int(fl_["num_items"]))
     if rep.check(len(news) == 2, "R4", "region|two-entries", "trailer entry + region entry", "create_region_tag builds %d entries" % len(news), crt.span):
         trailer, region = sorted(news, key=lambda c: c.bb)
         a = [render(tc.term(x)) for x in trailer.args]
+        if getattr(trailer, "lit", False):
+            a[0] = re.sub(r"^(?:\w+::)*(?:Tag|ToPrimitive)::to_u32\((\w+)\)(?:<Some>\.0)?$", r"\1", a[0])      # the literal stores `tag.to_u32()`, as `new` does
         rep.check(a == ["tag", "MulWithOverflow(AddWithOverflow(records_count, 1_i32), Neg(i32(16_u32)))", "rpm::headers::header::IndexData::Bin{buf[]}"], "R4", "region|trailer",
                   "trailer = (tag, -(16 * (records + 1)), Bin)", "trailer entry is built from %s" % a, trailer.loc())
         cnt = []
@@ -211,6 +235,7 @@ def run(f, fixture, rep, cfg, tier):
             for st in crt.stmts(bb):
                 if st["k"] == "assign" and st["lhs"]["p"] and any(isinstance(p, dict) and p.get("n") == "num_items" for p in st["lhs"]["p"]):
                     cnt.append(const_int(st["rv"].get("o", {})))
+        cnt += lit_cnt
         rep.check(cnt == [16], "R4", "region|trailer-count", "trailer count = 16", "trailer count is %s" % cnt, crt.span)
         r = [render(tc.term(x)) for x in region.args]
         rep.check(r[0] == "tag" and r[1] == "offset" and r[2].startswith("rpm::headers::header::IndexData::Bin{buf[write:rpm::headers::header::IndexEntry::<T>::write_index("), "R4", "region|entry",
@@ -231,6 +256,9 @@ def run(f, fixture, rep, cfg, tier):
         REG = "rpm::headers::header::Header::<T>::create_region_tag("
         # the index is [region entry] followed by all sorted records: `vec![region]` + append(records), or push(region) + extend/append(records)
         first = ie.startswith("vec![" + REG) or ie.startswith("buf[write:std::vec::Vec::<T, A>::push(" + REG)
+        # ... or `once(region).chain(records).collect()`
+        CH = "std::iter::Iterator::collect(std::iter::Iterator::chain(std::iter::once(" + REG
+        chained = ie.startswith(CH) and ie.endswith("), %s))" % p1)
         va = [c for c in fe.calls() if re.search(r"(Vec::<T, A>::append|Extend::extend|Vec::<T, A>::extend_from_slice)$", c.decl)]
         okva = False
         for c_ in va:
@@ -238,6 +266,8 @@ def run(f, fixture, rep, cfg, tier):
             if src == p1 and (recv.startswith("vec![" + REG) or recv.startswith("buf[write:std::vec::Vec::<T, A>::push(" + REG) or recv.startswith("buf[")) and ie.rstrip("]").endswith("(%s)" % p1) or (src == p1 and ie.startswith("vec![" + REG)):
                 okva = True
         okva = okva and len(va) == 1
+        if chained and not va:
+            first = okva = True
         rep.check(after and last and first and okva, "R4", "region|placement", "region entry first in the index, its data last in the store, created after layout",
                   "region placement: after-layout=%s data-last=%s index-first=%s append-order=%s" % (after, last, first, okva), fe.span)
 
@@ -251,7 +281,7 @@ def run(f, fixture, rep, cfg, tier):
         cp = [c for c in ln.calls() if c.decl.endswith("clone_from_slice") or c.decl.endswith("copy_from_slice")]
         t = render(tl.term(cp[0].args[0])) if cp else ""
         # the copy is cut to min(65, name.len()) - `cmp::min` or `.min()`, either operand order - and lands in a zeroed [u8; 66]
-        cap = r"(?:SubWithOverflow\(core::slice::<impl \[T\]>::len\(\('repeat', \('const', '0_u8'\), '66'\)\), 1_usize\)|65_usize)"
+        cap = r"(?:SubWithOverflow\(core::slice::<impl \[T\]>::len\(\('repeat', \('const', '0_u8'\), '66'\)\), 1_usize\)|SubWithOverflow\(66_usize, 1_usize\)|65_usize)"
         nl = r"core::str::<impl str>::len\(%s\)" % re.escape(ln.local_name(1) or "name")
         okn = re.search(r"(?:std::cmp::min|std::cmp::Ord::min)\((?:%s, %s|%s, %s)\)" % (cap, nl, nl, cap), t) is not None and "('repeat', ('const', '0_u8'), '66')" in t
         rep.check(okn, "R6", "lead|name", "name: at most 65 bytes copied into a zeroed [u8; 66] (always NUL-terminated)", "lead name copy target is %s" % t[:200], ln.span)
@@ -261,8 +291,35 @@ def run(f, fixture, rep, cfg, tier):
     # ---- R7 rpmlib ---------------------------------------------------------------------------------------------
     rl = [c for c in pd.calls() if c.decl.endswith("types::Dependency::rpmlib")]
     rows = {}
+    row_bb = {}
+    # table form: `let feature = match codec { Zstd => Some(("PayloadIsZstd", "5.4.18-1")), .., Gzip | None => None };
+    #              if let Some((name, since)) = feature { requires.push(Dependency::rpmlib(name, since)) }`
+    # - each (name, version) tuple built in an arm is a row located in that arm, provided the call sits on the Some edge
+    pairs = []
+    for bb in sorted(pd.reachable()):
+        for st in pd.stmts(bb):
+            if st["k"] == "assign" and st["rv"]["r"] == "agg" and st["rv"].get("ak") == "tuple" and len(st["rv"]["ops"]) == 2:
+                ss = [const_str(o) for o in st["rv"]["ops"]]
+                if all(isinstance(x, str) for x in ss):
+                    pairs.append((ss[0].strip('"'), ss[1].strip('"'), bb))
     for c in rl:
-        name = (c.args[0].get("k", {}).get("s") or render(tp.term(c.args[0]))).strip('"')
+        if const_str(c.args[0]) is None and render(tp.term(c.args[0])).startswith("phi("):
+            names = {lf["k"]["s"].strip('"') for lf in pd.origins(c.args[0]) if lf["kind"] == "const" and "s" in lf["k"]}
+            vers = {lf["k"]["s"].strip('"') for lf in pd.origins(c.args[1]) if lf["kind"] == "const" and "s" in lf["k"]}
+            mine = [p_ for p_ in pairs if p_[0] in names]
+            on_some = False
+            for sb in sorted(pd.reachable()):
+                info = switch_info(pd, sb)
+                if info and info["kind"] == "discr" and (info.get("enum") or "").endswith("option::Option"):
+                    a_ = arms_of(pd, info)
+                    if "Some" in a_ and pd.dominates(a_["Some"], c.bb) and pd.pred(a_["Some"]) == [sb]:
+                        on_some = True
+            if on_some and {p_[0] for p_ in mine} == names and {p_[1] for p_ in mine} == vers and len(mine) == len(names):
+                for (n_, v_, bb_) in mine:
+                    rows[n_] = (v_, c)
+                    row_bb[n_] = bb_
+                continue
+        name = (const_str(c.args[0]) or render(tp.term(c.args[0]))).strip('"')
         ver = render(tp.term(c.args[1])).strip('"')
         rows[name] = (ver, c)
     fe_call = [c for c in pd.calls() if c.decl.endswith("Header::<T>::from_entries")]
@@ -282,7 +339,7 @@ def run(f, fixture, rep, cfg, tier):
         common = set.intersection(*reach.values())
         for variant, t in arms.items():
             region = reach[t] - common
-            got = sorted(n for n, (v, c) in rows.items() if c.bb in region)
+            got = sorted(n for n, (v, c) in rows.items() if row_bb.get(n, c.bb) in region)
             want = [RPMLIB_CODEC[variant][0]] if variant in RPMLIB_CODEC else []
             okv = got == want and all(rows[n][0] == RPMLIB_CODEC[variant][1] for n in got)
             rep.check(okv, "R7", "rpmlib|codec|%s" % variant, "%s payloads require %s" % (variant, want or "no extra feature"),
@@ -318,7 +375,7 @@ def run(f, fixture, rep, cfg, tier):
                         if not pd.dominates(info["true"], bb):
                             continue
                         for st in pd.stmts(bb):
-                            if st["k"] == "assign" and st["rv"]["r"] == "use" and st["rv"]["o"].get("k", {}).get("s") == "true" and not st["lhs"]["p"] and (pd.local_name(st["lhs"]["l"]) or "").startswith("uses_file_cap"):
+                            if st["k"] == "assign" and st["rv"]["r"] == "use" and const_str(st["rv"]["o"]) == "true" and not st["lhs"]["p"] and (pd.local_name(st["lhs"]["l"]) or "").startswith("uses_file_cap"):
                                 raised = True
             ok = ok and raised
             if not ok and pl is not None:
